@@ -51,7 +51,9 @@ Example C08_exact_examples :
   /\ gamma_int 5 = Some 24
   /\ gamma_half 7 = (15 # 8)%Q
   /\ gamma_half (-3) = (4 # 3)%Q
-  /\ primepi_int 100 = 25
+  /\ primepi_int 100 = PPOk 25
+  /\ primepi_int 4294967306 = PPTooLarge
+  /\ gamma_half 23 = (13749310575 # 2048)%Q
   /\ primorial_int 10 = Some 210.
 Proof. vm_compute. repeat split. Qed.
 Print Assumptions C08_ctor_examples.
